@@ -8,9 +8,9 @@ bin=${GRITSCHECK:-/verif/bin/gritscheck}
 for pt in "$@"; do
   cd "$wt" || exit 2
   git checkout -q -- . ; git clean -fdq -e OUT
-  if ! git apply "$pt" 2>/tmp/bp_apply.log; then echo "$(basename $pt): does not apply"; continue; fi
-  if ! go build ./... 2>/tmp/bp_build.log; then echo "$(basename $pt): does not build"; git checkout -q -- .; continue; fi
-  out=$($bin -verif /verif -all -repo "$wt" -evidence-dir /tmp/evm 2>&1)
+  if ! git apply "$pt" 2>/tmp/bp_apply_$(basename "$wt").log; then echo "$(basename $pt): does not apply"; continue; fi
+  if ! go build ./... 2>/tmp/bp_build_$(basename "$wt").log; then echo "$(basename $pt): does not build"; git checkout -q -- .; continue; fi
+  out=$($bin -verif /verif -all -repo "$wt" -evidence-dir /tmp/evm_$(basename "$wt") 2>&1)
   fails=$(echo "$out" | grep "^C[0-9]* " | grep -v " 0 violations" | grep -o "^C[0-9]*" | tr '\n' ' ')
   rules=$(echo "$out" | grep -o "rule R-[A-Z-]* \[[a-z]*\]" | sort -u | tr '\n' ';')
   if [ -z "$fails" ]; then echo "$(basename $pt): SILENT"; else echo "$(basename $pt): ALARM $fails [$rules]"; fi
